@@ -357,7 +357,12 @@ for _c in H2_EVENT_CLASSES:
 class RecordModel:
     """library value objects that hypercorn only constructs and hands over"""
 
+    H2CONFIG_DEFAULTS = {"client_side": True, "header_encoding": None, "validate_outbound_headers": True, "normalize_outbound_headers": True,
+                         "validate_inbound_headers": True, "normalize_inbound_headers": True}
+
     def new(self, interp, cls, args, kwargs, fr):
+        if cls is h2.config.H2Configuration:
+            return SObj(cls, dict(self.H2CONFIG_DEFAULTS, **kwargs))  # what is not passed has the library's default
         return SObj(cls, dict(kwargs))
 
 
